@@ -19,9 +19,9 @@ RULE = ("one case = one scenario on the simulated stack: create/delete histories
 TRUSTED = ["theories/Entity/EntityModel.v is a hand transcription of the entity-id construction in "
            "participant_methods.rs:40-96/131-185/222-300/355-405, publisher_methods.rs:29-125, "
            "subscriber_methods.rs:34-150 and of the counters in participant_entity.rs:57-62,231",
-           "the harness is built with the dev profile (overflow checks on): the Release behaviour (wrap-around, "
-           "duplicate handle) is proved on the model (Profile parameter) and argued from the same source lines, not "
-           "executed",
+           "the quick tier runs the harness of the dev profile (overflow checks on: panic); the thorough tier "
+           "additionally builds it with --release (overflow-checks = false) and compares it with the model in the "
+           "Release profile (wrap-around, duplicate handle of a live entity)",
            "RTPS GUIDs are not observable through the public API: the model builds them as the code does "
            "(Guid::new(prefix of the participant handle, entity_id), the same 16 bytes as the instance handle)"]
 ASSUMPTIONS = ["theorem and oracle hold outside the class 'a counter is incremented at the maximum of its type' "
@@ -140,6 +140,70 @@ def gen(r, tier):
     return cases
 
 
+def release_cases():
+    return [
+        # the 257th publisher of a participant gets the handle of the first one, which is alive
+        ["P 0"] + ["PUB 0"] * 257 + ["h PUB 0", "h PUB 256", "gq PUB 0", "gq PUB 256"],
+        ["P 0"] + ["SUB 0"] * 257 + ["h SUB 0", "h SUB 256"],
+        # with deletions in between nothing is alive twice: no duplicate, no panic
+        ["P 0", "burnPUB 0 300", "PUB 0", "PUB 0", "h PUB 0"],
+        ["P 0", "T 0 1", "PUB 0", "W 0 0", "burnW 0 0 65535", "W 0 0", "h W 0", "h W 1"],
+        ["FQ 0", "P 0", "T 0 1", "burnT 0 65535", "T 0 2", "h T 0", "h T 1"],
+        parse_line("P 0 ; T 0 1 ; PUB 0 ; SUB 0 ; W 0 0 ; R 0 0 ; delW 0 ; W 0 0 ; h W 1"),
+    ]
+
+
+def extra(ctx, binary):
+    """thorough tier: the same harness built WITHOUT overflow checks (cargo --release, profile.release
+    overflow-checks = false) against the model in the Release profile; a build problem is reported as an
+    assumption, never as a violation"""
+    if ctx.tier != "thorough":
+        return
+    import os
+    import subprocess
+    from vlib import core
+    tdir = os.path.join(core.CACHE, "target_entity_release")
+    env = dict(os.environ, RUSTFLAGS="--cfg " + core.GUARD, CARGO_TARGET_DIR=tdir, CARGO_NET_OFFLINE="true")
+    try:
+        p = subprocess.run(["cargo", "build", "--offline", "--quiet", "--release", "--bin", HARNESS], cwd=core.HARNESS,
+                           env=env, timeout=2400, stdout=subprocess.PIPE, stderr=subprocess.STDOUT, text=True)
+        ok = p.returncode == 0
+    except subprocess.TimeoutExpired:
+        ok = False
+    rb = os.path.join(tdir, "release", HARNESS)
+    if not ok or not os.path.exists(rb):
+        ctx.assumptions.append("the release (no overflow checks) harness could not be built in time: the wrap-around "
+                               "behaviour is claimed on the model only in this run")
+        return
+    cases = release_cases()
+    lines = [case_line(c) for c in cases]
+    outs = core.run_harness(rb, HARNESS, lines)
+    terms, keep = [], []
+    for c, o in zip(cases, outs):
+        t = case_term(c, o)
+        if t is None:
+            ctx.violations.append(("impl-crash", "release harness output %r on case %s" % (o, case_line(c)),
+                                   {"case": case_line(c), "impl_output": o, "harness": HARNESS + " (release)"}))
+        else:
+            terms.append(t)
+            keep.append(c)
+    mb, ob, err = core.coq_eval_cases(ctx, CORR, "C35R", CASE_TYPE, terms, tag="release")
+    if err:
+        ctx.broken.append("release correspondence evaluation failed: " + err[-400:])
+    for i in mb:
+        ctx.broken.append("release profile: implementation differs from the Release model on: " + case_line(keep[i]))
+    known = core.known_ids(ctx.pid)
+    for i, cls in ob:
+        fid = KNOWN.get(cls)
+        if fid is not None and fid in known:
+            ctx.known_seen.setdefault(fid, case_line(keep[i]))
+        else:
+            ctx.violations.append(("oracle", "release profile: oracle rejects " + case_line(keep[i]),
+                                   {"case": case_line(keep[i]), "harness": HARNESS + " (release)"}))
+    ctx.cov["release_profile_evaluations"] = len(cases)
+    ctx.cov["release_profile_duplicate_handles_seen"] = sum(1 for _, cls in ob if cls == 1)
+
+
 def corpus():
     return [
         parse_line("P 0 ; T 0 1 ; PUB 0 ; SUB 0 ; W 0 0 ; R 0 0 ; W 0 0 ; R 0 0 ; h W 1 ; h R 1 ; h PUB 0 ; h T 0 ; h P 0 ; "
@@ -188,8 +252,8 @@ MANIFEST = {
              "through the real stack in the simulator and comparing every returned handle / error / panic with the "
              "model inside Coq; the uniqueness oracle is applied to the implementation's own handles."),
     "note": ("Trusted: Coq kernel + vm_compute; hand model EntityModel.v (checked against the code by the correspondence "
-             "run on every check); simulator harness; the Release-profile behaviour is proved on the model only (the "
-             "harness is a dev build). Axioms: none. Known finding C35-counter-overflow (proposed_fixes/"
+             "run on every check); simulator harness; the Release-profile behaviour (handle of a live entity reused) is executed on the real "
+             "stack in the thorough tier only. Axioms: none. Known finding C35-counter-overflow (proposed_fixes/"
              "C35-counter-overflow.diff)."),
     "technique": "Coq proof (handle invariant by induction over all mail histories, Debug/Release profile parameter) "
                  "+ differential correspondence on the simulated stack with the uniqueness oracle evaluated in Coq",
